@@ -7,7 +7,7 @@ Definition e_facts (f : facts_t) : list Z :=
 (* 401: tree, rtl, later_useful ->
         Ok [min; max; lead; trail; mode; prefix bytes]            final FindOptimizations (with the lookahead wrapper)
            [legacy Anchors; has Boyer-Moore prefix; its runes; its CaseInsensitive flag]
-           [shape_ok for the pattern's direction; no_ci_lit]
+           [shape_ok for the pattern's direction; no_ci_lit; look_ok]
         Crash 1 when the tree is one the Go code would fault on *)
 Definition run_facts (args : list Z) : list Z :=
   match (dlet t <- d_tree ; dlet rtl <- d_bool ; dlet lu <- d_bool ; d_ret (t, rtl, lu)) args with
@@ -20,7 +20,7 @@ Definition run_facts (args : list Z) : list Z :=
               | Some (s, ci) => 1 :: e_zlist s ++ e_bool ci
               | None => 0 :: e_zlist [] ++ e_bool false
               end)
-          ++ e_bool (shape_ok rtl t) ++ e_bool (no_ci_lit t)
+          ++ e_bool (shape_ok rtl t) ++ e_bool (no_ci_lit t) ++ e_bool (look_ok t)
   | _ => bad_case
   end.
 
